@@ -419,6 +419,12 @@ class Report:
         with open(os.path.join(evdir, f'{self.pid}.json'), 'w') as f:
             json.dump(ev, f, indent=1, default=_default)
             f.write('\n')
+        if self.tier == 'thorough':
+            # the last thorough run is also kept aside: <id>.json is rewritten by every (usually quick) run
+            os.makedirs(os.path.join(evdir, 'thorough'), exist_ok=True)
+            with open(os.path.join(evdir, 'thorough', f'{self.pid}.json'), 'w') as f:
+                json.dump(ev, f, indent=1, default=_default)
+                f.write('\n')
         summary = {k: cov[k] for k in ('evaluations', 'states', 'transitions', 'traces_validated_against_impl',
                                        'distinct_nontrivial', 'distinct_outcomes', 'rejected', 'unjudged',
                                        'caps_hit', 'exhaustive', 'bound', 'space_size')}
